@@ -355,9 +355,59 @@ def process_digi_subbranch(org_arr: ak.Array) -> ak.Array:
     return ak.zip(fields)
 
 
+def process_digi_subbranch_form(org_form: awkward.forms.Form) -> awkward.forms.Form:
+    """
+    The awkward form of the array returned by `process_digi_subbranch`: the fields of
+    `TRawData` are moved to the top level of each digi record.
+
+    Parameters:
+        org_form: The form announced by the factories for a digi collection.
+
+    Returns:
+        The form of the post-processed digi collection.
+    """
+    record_form = getattr(org_form, "content", None)
+    if (
+        not isinstance(org_form, awkward.forms.ListOffsetForm)
+        or not isinstance(record_form, awkward.forms.RecordForm)
+        or "TRawData" not in record_form.fields
+    ):
+        return org_form
+
+    fields = {}
+    for field_name, field_form in zip(record_form.fields, record_form.contents):
+        if field_name == "TRawData":
+            for raw_name, raw_form in zip(field_form.fields, field_form.contents):
+                fields[raw_name] = raw_form
+        else:
+            fields[field_name] = field_form
+
+    return awkward.forms.ListOffsetForm(
+        org_form.offsets,
+        awkward.forms.RecordForm(list(fields.values()), list(fields.keys())),
+    )
+
+
 #############################################
 # Main function
 #############################################
+def preprocess_subbranch_form(
+    full_branch_path: str, org_form: awkward.forms.Form
+) -> awkward.forms.Form:
+    """
+    Awkward form counterpart of `preprocess_subbranch`, so that lazily read (dask) arrays
+    announce and yield the same type as eagerly read ones.
+    """
+    full_branch_path = full_branch_path.replace("/Event:", "")
+    evt_name, subbranch_name = full_branch_path.split("/")
+
+    if evt_name == "TDigiEvent" and subbranch_name != "m_fromMc":
+        return process_digi_subbranch_form(org_form)
+
+    # Default return
+    return org_form
+
+
 def preprocess_subbranch(full_branch_path: str, org_arr: ak.Array) -> ak.Array:
     full_branch_path = full_branch_path.replace("/Event:", "")
     evt_name, subbranch_name = full_branch_path.split("/")
@@ -403,6 +453,13 @@ class Bes3Interpretation(AsCustom):
         # preprocess awkward array and return
         full_branch_path = regularize_object_path(branch.object_path)
         return preprocess_subbranch(full_branch_path, arr)
+
+    def awkward_form(self, file, *args, **kwargs):
+        form = super().awkward_form(file, *args, **kwargs)
+
+        # apply the same post-processing as `final_array` applies to the arrays
+        full_branch_path = regularize_object_path(self._branch.object_path)
+        return preprocess_subbranch_form(full_branch_path, form)
 
     @property
     def typename(self) -> str:
